@@ -362,9 +362,14 @@ func buildArg(a Arg, handles []value.Value) value.Value {
 	case "bool":
 		return value.Bool(a.B)
 	case "ints":
-		vs := make([]value.Value, len(a.L))
+		// a slice owned by the host, handed over as it is (with some spare capacity, as slices that
+		// grew by append have); the host keeps looking at it: see hostSlices
+		vs := make([]value.Value, len(a.L), len(a.L)+3)
 		for i, x := range a.L {
 			vs[i] = value.Int(x)
+		}
+		if hostSlices != nil {
+			*hostSlices = append(*hostSlices, hostSlice{cur: vs, snap: append([]value.Value(nil), vs...)})
 		}
 		return value.NewList(vs...)
 	case "nums": // lazy, sized host list without faults
@@ -384,6 +389,25 @@ func buildArg(a Arg, handles []value.Value) value.Value {
 		return nil
 	}
 	return value.Int(0)
+}
+
+// hostSlices: every Go slice the host has wrapped into a list during the run, with a copy taken at
+// that moment. Nothing the language does with the list may write through into the host's slice.
+type hostSlice struct{ cur, snap []value.Value }
+
+var hostSlices *[]hostSlice
+
+func hostSlicesChanged(hs []hostSlice) []string {
+	var out []string
+	for k, h := range hs {
+		for i := range h.snap {
+			if h.cur[i] != h.snap[i] {
+				out = append(out, fmt.Sprintf("host slice #%d: element %d was %v, is %v", k, i, h.snap[i], h.cur[i]))
+				break
+			}
+		}
+	}
+	return out
 }
 
 // hostRecovers: the host iterates a lazy result after the evaluation call has returned. A closure
@@ -519,6 +543,8 @@ type RunOut struct {
 	Races    int
 	// goroutines with library frames that are still alive after the teardown of all tasks
 	Unmanaged []unmanagedG
+	// slices owned by the host whose content differs from what it was when they were handed over
+	HostChanged []string
 }
 
 func simConfig(sim SimCfg, b Budgets) simrt.Config {
@@ -559,6 +585,8 @@ func runScript(sc *Script, sim SimCfg, b Budgets) *RunOut {
 	}
 	hs := &hostState{tab: sc.Host, abortAbove: b.AbortAbove}
 	host = hs
+	var slices []hostSlice
+	hostSlices = &slices
 	races0 := simrt.RaceErrors()
 	res := simrt.Run(simConfig(sim, b), func() {
 		gens := sc.Gens
@@ -590,5 +618,6 @@ func runScript(sc *Script, sim SimCfg, b Budgets) *RunOut {
 		}
 	})
 	host = nil
-	return &RunOut{Res: res, Outcomes: r.outcomes, Host: hs, Races: simrt.RaceErrors() - races0, Unmanaged: unmanagedAfterRun()}
+	hostSlices = nil
+	return &RunOut{Res: res, Outcomes: r.outcomes, Host: hs, Races: simrt.RaceErrors() - races0, Unmanaged: unmanagedAfterRun(), HostChanged: hostSlicesChanged(slices)}
 }
